@@ -14,7 +14,7 @@ func init() {
 	register(&Property{
 		ID:          "C16",
 		Engines:     []string{"cfg", "lockset"},
-		Explanation: "Deadline bookkeeping (timing itself is wall-clock and not decidable): a timer is created only on the field-is-nil edge and stored in that field, otherwise Reset; every Stop clears the field; all under Conn.mux, and the field addresses flow only to setDeadline (O1); the duration is time.Until(t) of the caller's t and a zero t takes the clear edge (O2); each timer's callback closes with its own timeout error (O3); closeWithError stops and clears both timers in the critical section that sets closed (O4); Write/Writev stop and clear the write timer on the queue-empty edge before unlocking (O5); the keep-alive renewal sites exist and use time.Now().Add(KeepaliveTime) (O6). DialAsyncTimeout arms the dial timer before the connection is registered with its poller (O7). The dial completion clears the dial timer before the user's callback (O8).",
+		Explanation: "Deadline bookkeeping (timing itself is wall-clock and not decidable): a timer is created only on the field-is-nil edge and stored in that field, otherwise Reset; every Stop clears the field; all under Conn.mux, and the field addresses flow only to setDeadline (O1); the duration is time.Until(t) of the caller's t and a zero t takes the clear edge (O2); each timer's callback closes with its own timeout error (O3); closeWithError stops and clears both timers in the critical section that sets closed (O4); Write/Writev stop and clear the write timer on the queue-empty edge before unlocking (O5); the keep-alive renewal sites exist and use time.Now().Add(KeepaliveTime) (O6). DialAsyncTimeout arms the dial timer before the connection is registered with its poller (O7). The dial completion clears the dial timer before the user's callback (O8). The dial timer is armed only for a pending connect (O11).",
 		NotCovered:  "timing; the race between a firing timer and Reset; the HTTP client's per-request deadlines (ClientConn.onResponse)",
 		Run:         runC16,
 	})
@@ -53,7 +53,7 @@ func runC16(c *Ctx) {
 	c.Rule("C16.O7", "E4", "DialAsyncTimeout arms the dial timer before the connection is registered with its poller: nothing arms a timer after the registration, when the completion that clears it may already have run", 1)
 	c.Rule("C16.O8", "E4", "the dial completion clears the dial timer before it runs the user's callback: a deadline the callback sets must survive the callback's return", 1)
 	c.Rule("C16.O9", "E5,E4", "who may cancel the write deadline: only setDeadline, teardown, and Write/Writev on their exact queue-empty edge; any other function that clears the write timer must do so on an exact queue-empty edge too", 1)
-	c.Rule("C16.O10", "E4", "Upgrade hands the connection over with the right read deadline on both edges of KeepaliveTime > 0: renewed when positive, cleared (the HTTP keep-alive deadline cancelled) otherwise", 1)
+	c.Rule("C16.O10", "E4", "Upgrade hands the connection over with the right read deadline on both edges of KeepaliveTime > 0: renewed when positive, cleared (the HTTP keep-alive deadline cancelled) otherwise; the deadline is set on the connection the WebSocket reads from, not on the hijacked one", 2)
 	c.Rule("C16.O11", "E4", "the dial timer is armed only for a connect that is still pending (where Conn.onConnected is installed): a connect that completed at once has no poller completion to clear it, and the timer would close the established connection", 1)
 	c16DialTimerPending(c, "C16.O11")
 	c.Rule("C16.O6", "E5,E4", "keep-alive renewal sites exist and pass time.Now().Add(<engine>.KeepaliveTime)", 7)
@@ -499,6 +499,7 @@ func runC16(c *Ctx) {
 	if up := c.Fn("C16.O10", "(*websocket.Upgrader).Upgrade"); up != nil {
 		fi := c.P.Info(up)
 		var renew, clear int
+		wrongRecv := ""
 		for _, cs := range c.P.Calls(up, func(name string, _ ir.CallSite) bool { return strings.HasSuffix(name, ".SetReadDeadline") }) {
 			if cs.In.Parent() != up {
 				continue
@@ -516,6 +517,11 @@ func runC16(c *Ctx) {
 			if !known {
 				continue
 			}
+			if cs.Common.IsInvoke() {
+				if rf := c.P.LoadedField(ir.Resolve(cs.Common.Value)); rf != "websocket.Conn.Conn" {
+					wrongRecv = "the read deadline is set at " + c.Pos(cs.In) + " on " + c.P.Desc(ir.Resolve(cs.Common.Value)) + ", not on the connection the WebSocket reads from (websocket.Conn.Conn): for a connection transferred to the poller that is the std connection that was just closed by the transfer, so a silent peer is never closed by the keep-alive"
+				}
+			}
 			if _, isZero := ir.Resolve(arg).(*ssa.Const); isZero && !pos {
 				clear++
 			}
@@ -531,6 +537,7 @@ func runC16(c *Ctx) {
 			bad = "Upgrade does not clear the read deadline when KeepaliveTime <= 0: the HTTP engine's keep-alive timer stays armed and closes the upgraded connection one keep-alive period after the handshake"
 		}
 		c.Cond(bad == "", "C16.O10", fnKey(c.P, up, "read deadline on both KeepaliveTime edges"), c.FnPos(up), fmt.Sprintf("%d renew, %d clear", renew, clear), bad)
+		c.Cond(wrongRecv == "", "C16.O10", fnKey(c.P, up, "deadline set on the connection that is read"), c.FnPos(up), "receiver is the WebSocket connection's own net.Conn", wrongRecv)
 	}
 
 	// ------------------------------------------------------------------ O6
